@@ -285,7 +285,8 @@ class CallMixin:
                 a, b = self.unify(vs[0], vs[1], n)
                 yield st1, V(T.BOOL, self.dict_eq(a, b))
             elif nm == "subset":
-                yield st1, V(T.BOOL, z3.IsSubset(vs[0].z, vs[1].z))
+                x = vs[0].ty.elem.fresh("x")
+                yield st1, V(T.BOOL, z3.ForAll([x], z3.Implies(z3.Select(vs[0].z, x), z3.Select(vs[1].z, x))))
             elif nm == "tup":
                 yield st1, self.mk_tuple(vs)
             elif nm == "lex_lt":
@@ -416,7 +417,7 @@ class CallMixin:
         env = self.spec_env_for_call(c, bound, st)
         self.stats["calls"] += 1
         self.called.add(c.key)
-        pre = st
+        pre = st.clone(env={**st.env, **env})
         # 1. preconditions
         for i, r in enumerate(c.requires):
             goal = self.spec(r, pre, env=env, old=pre)
@@ -429,17 +430,18 @@ class CallMixin:
             caller_m = self.entry_measure
             goal = z3.And(self.lex_lt(callee_m, caller_m), *[m.z >= 0 for m in callee_m])
             self.emit("decreases", f"{c.key}", n, pre, goal)
-        # 3. normal return
+        # 3. normal return (spec expressions are read with the POST values of modified captures)
         post = self.havoc_modifies(c, c.modifies, env, st, pre)
+        env_post = self.spec_env_for_call(c, bound, post)
         if c.returns_expr is not None:
-            res = self.spec(c.returns_expr, post, env=env, old=pre, want_bool=False)
+            res = self.spec(c.returns_expr, post, env=env_post, old=pre, want_bool=False)
             if c.returns is not None:
                 res = self.coerce(res, c.returns, n)
         elif c.returns is None or c.returns is T.NONE:
             res = self.lift(None)
         else:
             res, post = self.fresh(c.returns, "ret", post)
-        ens = [self.spec(e, post, env=env, old=pre, result=res) for e in c.ensures]
+        ens = [self.spec(e, post, env=env_post, old=pre, result=res) for e in c.ensures]
         normal = post.assume(*ens)
         # 4. exceptional returns
         for ename, spec in c.raises.items():
@@ -451,8 +453,9 @@ class CallMixin:
                 cond, eens, emods, exact = spec, [], None, True
             mods = emods if emods is not None else (c.on_exc_modifies if c.on_exc_modifies is not None else c.modifies)
             est = self.havoc_modifies(c, mods, env, st, pre)
-            cz = self.spec(cond, est, env=env, old=pre)
-            ez = [self.spec(e, est, env=env, old=pre) for e in list(eens) + list(c.exc_ensures)]
+            env_e = self.spec_env_for_call(c, bound, est)
+            cz = self.spec(cond, est, env=env_e, old=pre)
+            ez = [self.spec(e, est, env=env_e, old=pre) for e in list(eens) + list(c.exc_ensures)]
             if self.feasible(est, zand(cz, *ez)):
                 sink.append((est.assume(cz, *ez), Exc(cls, exact=exact)))
         if c.meta_noreturn if hasattr(c, "meta_noreturn") else False:
